@@ -275,6 +275,6 @@ impl IsZero for [u8] {
             t |= *b as i8;
         }
 
-        Choice::from((((t | -t) >> 7) + 1) as u8)
+        Choice::from((((t | t.wrapping_neg()) >> 7) + 1) as u8)
     }
 }
